@@ -54,21 +54,3 @@ Proof. vm_compute. reflexivity. Qed.
 Theorem c01_run_once : forall s, wf_groups s -> for_groups check_C01_group s (run_journals s) = true.
 Proof. exact run_passes_C01. Qed.
 Print Assumptions c01_run_once.
-
-(* ---------- the tie to the source: GeneratedCtl.v is re-derived from the Go source on every run (harness gen --out-ctl);
-   the decisions this property rests on, as the code states them today, are the model's ---------- *)
-From Esc Require Import GeneratedCtl proofs.GenCtlAgree proofs.GenCtlAgree_Reap.
-
-(* scale_down.go, per candidate: not annotated, a readable taint time, older than soft and (empty or older than hard), not dry *)
-Theorem c01_src_conditions : forall e o pods gtr_err n,
-  annots_ok n -> (gtr_err = true -> taint_time n = None) ->
-  gen_TryRemoveTaintedNodes_keep e o pods gtr_err n = negb (e_dry e || o_dry o) && reapable e o pods n.
-Proof. exact gen_TryRemoveTaintedNodes_keep_agree. Qed.
-Print Assumptions c01_src_conditions.
-
-(* scale_down.go TryRemoveTaintedNodes: the reaper's candidates are the tainted nodes the code's loop body appends
-   (annotation maps have one entry per key) *)
-Theorem c01_src_reaper : forall e o pods tainted, Forall annots_ok tainted ->
-  reap_candidates e o (e_dry e || o_dry o) pods tainted = filter (gen_TryRemoveTaintedNodes_keep e o pods false) tainted.
-Proof. exact gen_reap_candidates. Qed.
-Print Assumptions c01_src_reaper.
